@@ -743,6 +743,21 @@ func (g *gen) richErr() M {
 
 func (g *gen) behC17() M {
 	steps := []any{g.startupX("u")}
+	if g.chance(0.25) {
+		// an error value that is kept: reported, then decorated once more with the decoration it already carries
+		// outermost (and that one reported), then reported again as it was
+		kept := g.richErr()
+		d := g.pick("hint", "detail", "cons", "code", "sev")
+		v := map[string]string{"hint": g.errText(), "detail": g.errText(), "cons": g.errText(), "code": "23505", "sev": "WARNING"}[d]
+		v2 := map[string]string{"hint": g.errText(), "detail": g.errText(), "cons": g.errText(), "code": "42601", "sev": "FATAL"}[d]
+		kept["layers"] = append([]any{M{"d": d, "v": v}}, kept["layers"].([]any)...)
+		more := M{"base": kept["base"], "layers": append([]any{M{"d": d, "v": v2}}, kept["layers"].([]any)...)}
+		for _, e := range []M{kept, more, kept} {
+			g.id++
+			st := M{"id": g.id, "cols": []any{}, "oids": []any{}, "prog": []any{M{"op": "ret", "r": "err", "err": e}}}
+			steps = append(steps, send(M{"t": "Q", "q": M{"id": g.id, "parse": "ok", "stmts": []any{st}}}))
+		}
+	}
 	n := 1 + g.rng.Intn(6)
 	for i := 0; i < n; i++ {
 		g.id++
@@ -1163,6 +1178,17 @@ func (g *gen) behC20() M {
 			}
 			toks = append(toks, M{"k": "d", "n": idx})
 		}
+	}
+	if g.chance(0.012) {
+		// more occurrences of markers than the protocol has parameters: the limit is on the highest index, not on
+		// how often indexes are written - the highest one may well come last
+		k := []int{65535, 65536, 70000}[g.rng.Intn(3)]
+		lo := g.rng.Intn(2) // $0 counts for nothing, $1 for one
+		toks = make([]any, 0, k+2)
+		for i := 0; i < k; i++ {
+			toks = append(toks, M{"k": "d", "n": lo})
+		}
+		toks = append(toks, M{"k": "text"}, M{"k": "d", "n": lo + 1 + g.rng.Intn(3)})
 	}
 	steps := []any{M{"k": "parseparams", "toks": toks}}
 	beyond := false
